@@ -11,7 +11,7 @@
 (* be a behaviour of SyltUnify up to the point where the checker stops.    *)
 (* Programs are written as text (no std needed), one case per behaviour.   *)
 (***************************************************************************)
-EXTENDS Naturals, Sequences, TLC, Json, IOUtils
+EXTENDS Naturals, Sequences, FiniteSets, TLC, Json, IOUtils
 
 NL == "\n"
 Ops == <<"add", "sub", "mul", "div", "lt", "le", "eq", "neg", "field", "index", "case", "fieldset">>
@@ -72,7 +72,7 @@ Stride == IF "STRIDE" \in DOMAIN IOEnv THEN atoi(IOEnv.STRIDE) ELSE 1
 Offset == IF "OFFSET" \in DOMAIN IOEnv THEN atoi(IOEnv.OFFSET) ELSE 0
 Selected == {c \in Cases : (Idx(c) + (IF c.two THEN 1 ELSE 0)) % Stride = Offset % Stride}
 
-ASSUME \A c, d \in {x \in Cases : x.two} : Idx(c) = Idx(d) => c = d       \* the index is injective
+ASSUME Cardinality({Idx(x) : x \in {y \in Cases : y.two}}) = Cardinality({y \in Cases : y.two})       \* the index is injective
 
 VARIABLES c, done
 Init == c \in Selected /\ done = FALSE
